@@ -278,7 +278,7 @@ Section Reentrant.
       wp (match r with
           | Some s' => ret (Some s')
           | None =>
-              bind get (fun w1 => bind (put (w1 <| st := Some ns |> <| wintr := None |> <| wrecalled := None |>)) (fun _ =>
+              bind get (fun w1 => bind (put (w1 <| st := Some ns |> <| wintr := None |> <| wrecalled := [] |>)) (fun _ =>
               bind (emit (EvEntered (cur_label w) (label_of ns))) (fun _ =>
               bind get (fun w2 => bind (when (hooks_alive w2) (on_entered rec_ctl w)) (fun _ => ret None)))))
           end) Q w1).
@@ -301,7 +301,7 @@ Section Reentrant.
   Proof.
     intros HB HQ. unfold enter_next. do 3 wp_prim.
     assert (Hk : forall w1, B w0 w1 ->
-      wp (bind get (fun w1 => bind (put (w1 <| st := Some (SExcepted e) |> <| wintr := None |> <| wrecalled := None |>)) (fun _ =>
+      wp (bind get (fun w1 => bind (put (w1 <| st := Some (SExcepted e) |> <| wintr := None |> <| wrecalled := [] |>)) (fun _ =>
           bind (emit (EvEntered (cur_label w) (label_of (SExcepted e)))) (fun _ =>
           bind get (fun w2 => bind (when (hooks_alive w2) (on_entered rec_ctl w)) (fun _ => ret None)))))) Q w1).
     { intros w1 H1. do 4 wp_prim. use emit_total; [reflexivity | b_frame |]. intros u w2 H2. cbv beta iota.
@@ -802,13 +802,12 @@ Proof.
   match goal with |- wp _ _ ?w' => destruct (st w') as [cur|] end; [|wp_prim; apply HQ; [exact H0 | discriminate]].
   destruct cur; try (wp_prim; apply HQ; [exact H0 | discriminate]).
   assert (Hk : forall w1, SIp w0 w1 ->
-     wp (bind get (fun w' => match wrecalled w' with
-          | Some r => if Nat.eqb r id then bind (modify (fun w => w <| wrecalled := None |>)) (fun _ => again (Some id))
-                      else ret (XoInterrupted id)
-          | None => ret (XoInterrupted id)
-          end)) Q w1).
+     wp (bind get (fun w' =>
+          if existsb (Nat.eqb id) (wrecalled w')
+          then bind (modify (fun w => w <| wrecalled := filter (fun r => negb (Nat.eqb id r)) (wrecalled w) |>)) (fun _ => again (Some id))
+          else ret (XoInterrupted id))) Q w1).
   { intros w1 H1. do 2 wp_prim. wp_case; [|wp_prim; apply HQ; [exact H1 | discriminate]].
-    wp_case; [|wp_prim; apply HQ; [exact H1 | discriminate]]. do 2 wp_prim. eapply Hag; [sip_frame | exact HQ]. }
+    do 2 wp_prim. eapply Hag; [sip_frame | exact HQ]. }
   wp_prim. wp_case.
   - unfold fresh. do 5 wp_prim. do 2 wp_prim. apply Hk. sip_frame.
   - wp_prim. apply Hk; exact H0.
